@@ -36,8 +36,15 @@ fn meta_event(offset: usize, data: &[u8]) -> String {
     format!("m{idx}:{start}:{len}:{reserved}:{}", hex(id))
 }
 
+/// full events (with payloads) for the crash engine; recorded only while `FULL_ON`
+pub static FULL_EVENTS: Mutex<Vec<verif::IoEvent>> = Mutex::new(Vec::new());
+pub static FULL_ON: std::sync::atomic::AtomicBool = std::sync::atomic::AtomicBool::new(false);
+
 pub fn install_io_tap(events: Arc<Mutex<Vec<String>>>) {
     verif::set_io_tap(Some(Arc::new(move |ev: &verif::IoEvent| {
+        if FULL_ON.load(std::sync::atomic::Ordering::Relaxed) {
+            FULL_EVENTS.lock().unwrap().push(ev.clone());
+        }
         use verif::{FileId, IoEvent::*};
         let f = |f: &FileId| if *f == FileId::Data { "d" } else { "r" };
         let s = match ev {
